@@ -450,7 +450,8 @@ where
             let (props, consumed) = Properties::parse(&data[cursor..])?;
             cursor += consumed;
             validate_pubcomp_properties(&props)?;
-            let prop_len = VariableByteInteger::from_u32(props.size() as u32).unwrap();
+            let prop_len = VariableByteInteger::from_len(props.size())
+                .map_err(|_| MqttError::MalformedPacket)?;
 
             (Some(prop_len), Some(props))
         } else {
@@ -464,7 +465,8 @@ where
 
         let pubcomp = GenericPubcomp {
             fixed_header: [FixedHeader::Pubcomp.as_u8()],
-            remaining_length: VariableByteInteger::from_u32(remaining_size as u32).unwrap(),
+            remaining_length: VariableByteInteger::from_len(remaining_size)
+                .map_err(|_| MqttError::MalformedPacket)?,
             packet_id_buf,
             reason_code_buf,
             property_length,
